@@ -86,6 +86,12 @@ type Exec struct {
 	LogOn     bool
 	exitedCnt int
 	OnQuiesce func() bool // harness hook run at quiescence before timers; return true if it enabled something
+	// RoundRobin: the canonical order of the candidates after the running thread
+	// is cyclic, starting behind the thread that ran last, instead of ascending
+	// ids. The default schedule then advances symmetric clients in lockstep, so
+	// interactions between them are few deviations away.
+	RoundRobin bool
+	lastID     int
 }
 
 var e *Exec
@@ -441,7 +447,13 @@ func (x *Exec) pick(cur *Thread) *Thread {
 		cands = append(cands, cur)
 		curEn = true
 	}
-	for _, t := range x.threads {
+	n := len(x.threads)
+	start := 0
+	if x.RoundRobin && n > 0 {
+		start = (x.lastID + 1) % n
+	}
+	for k := 0; k < n; k++ {
+		t := x.threads[(start+k)%n]
 		if t == cur && curEn {
 			continue
 		}
@@ -462,6 +474,7 @@ func (x *Exec) pick(cur *Thread) *Thread {
 		return nil
 	}
 	if len(cands) == 1 {
+		x.lastID = cands[0].ID
 		return cands[0]
 	}
 	idx := 0
@@ -478,6 +491,7 @@ func (x *Exec) pick(cur *Thread) *Thread {
 		ids[i] = c.ID
 	}
 	x.Decisions = append(x.Decisions, Decision{N: len(cands), Chosen: idx, CurEnabled: curEn, Cands: ids})
+	x.lastID = cands[idx].ID
 	return cands[idx]
 }
 
